@@ -7,6 +7,7 @@ package tls
 // build (go test -overlay).
 
 import (
+	crand "crypto/rand"
 	"encoding/json"
 	"fmt"
 	"os"
@@ -177,8 +178,20 @@ func verifPanicMessage(f func()) (msg string) {
 	return ""
 }
 
+// verifCrandReader scripts crypto/rand.Reader natively: byte k of the stream
+// is replay input "crand#k", the name the engine's crypto/rand intrinsics use.
+type verifCrandReader struct{}
+
+func (verifCrandReader) Read(b []byte) (int, error) {
+	for i := range b {
+		b[i] = uint8(verifNS.next("crand"))
+	}
+	return len(b), nil
+}
+
 func verifNativeRun(t *testing.T, job int, inputsPath string, h func()) {
 	verifNS = &verifNativeState{tbl: map[string]uint64{}, cnt: map[string]int{}}
+	crand.Reader = verifCrandReader{}
 	if inputsPath != "" {
 		b, err := os.ReadFile(inputsPath)
 		if err != nil {
